@@ -1,8 +1,50 @@
 (* C17 — simpleTAL executes templates according to TAL/TALES semantics; compiled programs
    are structurally well formed.  Property theorems only. *)
 From Coq Require Import String.
-From PG Require Import Lib.Str Model.TALES Proofs.TALESFacts.
+From Coq Require Import Sorted.
+From PG Require Import Lib.Str Model.TALES Proofs.TALESFacts Model.TALProg Model.TALProgSpec Proofs.TALProgFacts.
 Local Open Scope N_scope.
+
+(* ---- compiled programs are structurally well formed ----
+   wf_program is evaluated inside Coq on the REAL compiler's commandList / symbolTable / macros
+   for every generated template (Corr/K17.chk_wf); what it establishes: *)
+Theorem C17_wf_program_sound :
+  forall (p : program) (t : symtab) (m : macrotab), wf_program p t m = true ->
+    (* scopes balanced and properly nested, commands in priority order, symbols -> owning end tag *)
+    wfitems t 0 p /\
+    (* every macro and every slot filler is exactly one element of the program *)
+    (forall s, In s (all_subs p m) -> valid_sub p t s).
+Proof. exact TALProgFacts.wf_program_sound. Qed.
+Print Assumptions C17_wf_program_sound.
+
+(* commands on one element appear in opcode = TAL priority order (METAL first), and every jump
+   target is the ENDTAG_ENDSCOPE of the element that owns the command *)
+Theorem C17_priority :
+  forall (t : symtab) (o : nat) (el : list cmd), wfelem t o el ->
+    exists sc head st body en,
+      el = sc :: head ++ st :: body ++ [en] /\ StronglySorted rank_lt head /\
+      (forall c s, In c head -> cmd_sym c = Some s ->
+                   lookup_sym t s = Some (o + 2 + length head + length body)%nat) /\
+      nth_error el (2 + length head + length body) = Some en /\ is_etag en = true.
+Proof. exact TALProgFacts.wfelem_priority. Qed.
+Print Assumptions C17_priority.
+
+(* non-vacuity: the real program of
+   <li tal:omit-tag="" tal:attributes="id i" tal:content="i" tal:repeat="i l" tal:condition="l" tal:define="l l1">x</li>
+   (statements written in reverse order in the source) *)
+Example C17_wf_example :
+  wf_program
+    [CStartScope [] []; CDefine [(true, (lit "l"%string, lit "l1"%string))]; CCondition (lit "l"%string) 2%nat;
+     CRepeat (lit "i"%string) (lit "l"%string) 2%nat; CContent false false (lit "i"%string) 2%nat;
+     CAttributes [(lit "id"%string, lit "i"%string)]; COmitTag (lit "default"%string);
+     CStartTag (lit "li"%string) false; COutput (lit "x"%string); CEndTagEndScope (lit "li"%string) false false]
+    [(2%nat, 9%nat)] [] = true /\
+  (* ... and the same commands in source order are rejected *)
+  wf_program
+    [CStartScope [] []; COmitTag (lit "default"%string); CAttributes [(lit "id"%string, lit "i"%string)];
+     CStartTag (lit "li"%string) false; COutput (lit "x"%string); CEndTagEndScope (lit "li"%string) false false]
+    [(2%nat, 5%nat)] [] = false.
+Proof. vm_compute. split; reflexivity. Qed.
 
 (* ---- repeat variables (simpleTALES.RepeatVariable) ---- *)
 Theorem C17_tales_repeat_number : forall pos, rv_number pos = rv_index pos + 1.
